@@ -14,14 +14,14 @@ if [ ! -f "$OUT/libnsync_vrt.a" ] || [ -n "$VRT_REBUILD" ]; then
   rm -f "$OUT"/*.o "$OUT/libnsync_vrt.a"
   for s in $SRCS; do
     o="$OUT/$(echo $s | tr '/' '_' | sed 's/\.c$/.o/')"
-    gcc $CF $INC $REN -c "$REPO/$s" -o "$o" &
+    clang $CF $INC $REN -c "$REPO/$s" -o "$o" &
   done
   gcc -O1 -g -w -pthread -I$H/rt -c "$H/rt/vrt.c" -o "$OUT/vrt.o" &
-  gcc $CF -I$H/rt -c "$H/rt/yield.c" -o "$OUT/yield.o" &
+  clang $CF -I$H/rt -c "$H/rt/yield.c" -o "$OUT/yield.o" &
   wait
   ar rcs "$OUT/libnsync_vrt.a" $(ls "$OUT"/*.o | grep -v scen.o)
 fi
 b=$(basename "$SCEN" .c)
-gcc $CF $INC $REN "$@" -c "$SCEN" -o "$OUT/$b.scen.o"
+clang $CF $INC $REN "$@" -c "$SCEN" -o "$OUT/$b.scen.o"
 gcc -g -pthread "$OUT/$b.scen.o" "$OUT/libnsync_vrt.a" -o "$OUT/$b" -lpthread
 echo "$OUT/$b"
